@@ -285,7 +285,12 @@ func runMode(t *testing.T, h *Harness, determinism bool) {
 						if lo < 0 {
 							lo = 0
 						}
-						fmt.Printf("DIVERGENCE seed %d at log line %d\n", seed, i)
+						scj, _ := json.Marshal(sc0)
+						fmt.Printf("DIVERGENCE seed %d at log line %d\nSCENARIO %s\n", seed, i, scj)
+						lo = 0
+						if n := envInt("VERIF_DEBUG_DET_LINES", 6); i-int(n) > 0 {
+							lo = i - int(n)
+						}
 						for j := lo; j <= i; j++ {
 							fmt.Printf("  A %s\n  B %s\n", ra.Log[j], rb.Log[j])
 						}
